@@ -200,7 +200,7 @@ class ScalarKernel(Kernel):
     satisfy `post` (given as a function building the *negated* property)."""
 
     def __init__(self, kid, fn, argspec, desc, pre=None, negpost=None, cases=None, fmt_out=None, violates=None,
-                 funcs=None, timeout_s=60, concrete=None, feas_ms=1500):
+                 funcs=None, timeout_s=60, concrete=None, feas_ms=1500, unwind=None, intrinsics=None):
         super().__init__(kid)
         self.fn = fn
         self.argspec = argspec    # [(name, ty)]
@@ -214,6 +214,8 @@ class ScalarKernel(Kernel):
         self.timeout_s = timeout_s
         self.concrete = concrete or {}   # name -> concrete value (kernel specialised to it)
         self.feas_ms = feas_ms
+        self.unwind = unwind
+        self.extra_intrinsics = intrinsics or {}
 
     def _vars(self):
         vs = {}
@@ -234,7 +236,9 @@ class ScalarKernel(Kernel):
         res = KernelResult(self.kid)
         vs = self._vars()
         pre = self.pre(vs) if self.pre else []
-        ex = Executor(P, feas_timeout_ms=self.feas_ms)
+        ex = Executor(P, feas_timeout_ms=self.feas_ms, unwind=self.unwind)
+        if self.extra_intrinsics:
+            ex.intrinsics = dict(self.extra_intrinsics, **ex.intrinsics) if False else dict(list(self.extra_intrinsics.items()) + list(ex.intrinsics.items()))
         hint = getattr(self, "clz_hint", None)
         if hint:
             # sound only because `pre` pins the leading-zero count of that input (checked here)
@@ -282,7 +286,7 @@ class ScalarKernel(Kernel):
         return self.cases_fn(seed)
 
     def interp(self, P, case):
-        ex = Executor(P)
+        ex = Executor(P)     # concrete runs use the real callee bodies (no contracts), so they validate those too
         args = []
         for (nm, ty), v in zip(self.argspec, case):
             if ty == "bool":
@@ -636,6 +640,19 @@ def _ilog10_rational(num, den):
     return e
 
 
+class _Lazy(dict):
+    """DBX_CONTRACTS is defined further down in this module."""
+
+    def items(self):
+        return DBX_CONTRACTS.items()
+
+    def __bool__(self):
+        return True
+
+
+DBX_CONTRACTS_LAZY = _Lazy()
+
+
 class Dragonbox(ScalarKernel):
     """compute_nearest_normal / compute_nearest_shorter for one binade (biased exponent E): the
     returned decimal (D, k) (i) lies in the float's rounding interval (round-trips), (ii) no
@@ -655,7 +672,7 @@ class Dragonbox(ScalarKernel):
                          "Dragonbox %s::<%s>, biased exponent %d%s: round-trip, shortest, closest, no trailing zero (exact integer oracle)"
                          % ("compute_nearest_shorter" if shorter else "compute_nearest_normal", f, E,
                             "" if shorter else ", low %d mantissa bits symbolic, high bits = %#x" % (self.free, hi)),
-                         feas_ms=60, timeout_s=150,
+                         feas_ms=60, timeout_s=150, unwind=4, intrinsics=DBX_CONTRACTS_LAZY,
                          funcs=["lexical_write_float::algorithm::" + ("compute_nearest_shorter" if shorter else "compute_nearest_normal") + "::<%s>" % f,
                                 "DragonboxFloat::{compute_mul, compute_mul_parity, compute_delta, check_div_pow10, divide_by_pow10, remove_trailing_zeros}",
                                 "table_dragonbox cache row for this binade"])
@@ -799,3 +816,67 @@ class Dragonbox(ScalarKernel):
             if nb >= 0 and inside(t) and abs(t - v) < abs(x - v):
                 return True
         return False
+
+
+# ------------------------------------------------------------------ trailing-zero removal: contract + its proof
+def _rtz_contract(maxpow):
+    """Executor intrinsic standing for `remove_trailing_zeros(m)`: fresh (n, s) with
+    m == n * 10^s, n % 10 != 0 (for m != 0). Justified by the rtz_* kernels."""
+    def f(ex, st, fr, callee, args):
+        from mirexec import Agg
+        m = args[0]
+        ex.fresh += 1
+        n = z3.BitVec("rtz_n%d" % ex.fresh, 64)
+        s = z3.BitVec("rtz_s%d" % ex.fresh, 32)
+        cases = [z3.And(s == j, m.t == n * z3.BitVecVal(10 ** j, 64), z3.ULE(n, z3.BitVecVal((2 ** 64 - 1) // 10 ** j, 64))) for j in range(maxpow + 1)]
+        ex.cur.defs.append(z3.Implies(m.t != 0, z3.And(z3.Or(cases), z3.URem(n, z3.BitVecVal(10, 64)) != 0)))
+        return Agg([Int("u64", n), Int("i32", s)])
+    return f
+
+
+def _ptz_contract(maxpow):
+    rtz = _rtz_contract(maxpow)
+
+    def f(ex, st, fr, callee, args):
+        from mirexec import Agg
+        r = rtz(ex, st, fr, callee, args[:1])
+        return Agg([r.fields[0], Int("i32", args[1].t + r.fields[1].t)])
+    return f
+
+
+DBX_CONTRACTS = {
+    r"<f32 as lexical_write_float::algorithm::DragonboxFloat>::process_trailing_zeros": _ptz_contract(9),
+    r"<f64 as lexical_write_float::algorithm::DragonboxFloat>::process_trailing_zeros": _ptz_contract(19),
+    r"<f32 as lexical_write_float::algorithm::DragonboxFloat>::remove_trailing_zeros": _rtz_contract(9),
+    r"<f64 as lexical_write_float::algorithm::DragonboxFloat>::remove_trailing_zeros": _rtz_contract(19),
+}
+
+
+def _rtz_negpost(maxpow):
+    def f(vs, ret):
+        m = vs["m"]
+        n, s = ret.fields[0].t, ret.fields[1].t
+        cases = [z3.And(s == j, z3.ZeroExt(64, m) == z3.ZeroExt(64, n) * z3.BitVecVal(10 ** j, 128)) for j in range(maxpow + 1)]
+        return z3.Not(z3.And(z3.Or(cases), z3.URem(n, z3.BitVecVal(10, 64)) != 0))
+    return f
+
+
+def _rtz_cases(hi):
+    def f(seed):
+        rnd = random.Random(seed + 5)
+        cs = [1, 10, 100, 1000, 12300, 99999, 100000, 7 * 10 ** 8, hi, hi - 1, 10 ** (len(str(hi)) - 1)]
+        cs += [rnd.randrange(1, hi) * 10 ** rnd.randrange(0, 4) % hi + 1 for _ in range(12)]
+        return [[c] for c in cs]
+    return f
+
+
+register(ScalarKernel("rtz_f32", "tm::tm__f32__DragonboxFloat__remove_trailing_zeros", [("m", "u64")],
+                      "<f32 as DragonboxFloat>::remove_trailing_zeros(m) == (n, s) with m == n*10^s and n % 10 != 0, for every 1 <= m < 10^9 (f32 shortest decimals have at most 9 digits)",
+                      pre=lambda vs: [vs["m"] != 0, z3.ULT(vs["m"], z3.BitVecVal(10 ** 9, 64))], negpost=_rtz_negpost(9),
+                      cases=_rtz_cases(10 ** 9 - 1), violates=lambda a, o: False, unwind=8, feas_ms=100, timeout_s=120,
+                      funcs=["<f32 as DragonboxFloat>::remove_trailing_zeros"]))
+register(ScalarKernel("rtz_f64", "tm::tm__f64__DragonboxFloat__remove_trailing_zeros", [("m", "u64")],
+                      "<f64 as DragonboxFloat>::remove_trailing_zeros(m) == (n, s) with m == n*10^s and n % 10 != 0, for every 1 <= m < 10^17",
+                      pre=lambda vs: [vs["m"] != 0, z3.ULT(vs["m"], z3.BitVecVal(10 ** 17, 64))], negpost=_rtz_negpost(19),
+                      cases=_rtz_cases(10 ** 17 - 1), violates=lambda a, o: False, unwind=12, feas_ms=100, timeout_s=120,
+                      funcs=["<f64 as DragonboxFloat>::remove_trailing_zeros"]))
